@@ -66,11 +66,11 @@ PROPS = {
     },
     "C01": {
         "jobs": lambda tier: [
-            J("scaled", "c01"),
+            J("scaled", "c01", imports="Base Stream Inst Run RunHistStack"),
             J("scaled", "c01-header", imports="Base Stream Inst Run RunC01"),
             J("prod", "c01-header", imports="Base Stream Inst Run RunC01"),
         ],
-        "run_modules": ["RunC01"],
+        "run_modules": ["RunC01", "RunHistStack"],
         "rule": "scaled constants: generated writing plans (1-4 files, 0-7 pieces of boundary sizes around CIPHERBUF/CHUNK/BLOCK, "
                 "random interleaving, names incl. empty/unicode/max-length, 4 layer combinations, levels {0,1,5,9,11}, 1-3 recipients, "
                 "reader holding any one key), plus EVERY interleaving of up to 5 (quick) / 6 (thorough) pieces of two files with piece sizes {0, 3} "
